@@ -26,7 +26,7 @@ RULE = ("781 real RF24Network nodes (every valid address of levels 0..4) on one 
 REQUIRED = {"listening_entries": 4000, "next_hop_origin": 1000, "next_hop_router": 1000,
             "multicast_level": 50, "path_composition": 500, "history_independent": 300,
             "readdressed_like_fresh": 30}
-BUDGET = {"quick": 150, "thorough": 900}
+BUDGET = {"quick": 600, "thorough": 1500}
 EXHAUSTIVE = {"quick": "all 781x6 listening entries (default bytes, multicast on and off)",
               "thorough": "all 781x780 (source, destination) pairs in both roles with default bytes; all 781x6 listening entries for every byte set"}
 
